@@ -189,13 +189,17 @@ class Sim:
         for _ in range(rnd.choice([2, 3, 5])):
             for n in pair:
                 net.step(n)
-            for _k in range(200_000):
+            h0 = self.handled
+            while True:
                 evs = [e for e in net.enabled(only=pair) if e[0] != "connect" or (e[1].node in pair and e[1].remote_addr[0] in hosts)]
                 if not evs:
                     break
                 e = evs[rnd.randrange(len(evs))]
                 net.do(e, rnd.choice([None, None, 100, 1024]) if e[0] == "arrive" else None)
                 self.stats["events"] += 1
+                if self.handled - h0 > self.cap:
+                    self.fail("relay", "no-quiescence", "staged synchronisation of two nodes: %d protocol messages handled in one drain without reaching quiescence (cap %d)" % (self.handled - h0, self.cap))
+                    return
             self.simnet.CLOCK.now += 61
 
     def scheduled(self, n_events):
@@ -331,6 +335,8 @@ class Sim:
         case = self.case
         self.scheduled(case["n_events"])
         self.check_escaped("scheduled phase")
+        if self.fails:
+            return
         res = self.fair_suffix("synchronisation", lambda: all(n.cm.coinstate.head().height >= self.want_h for n in self.nodes))
         self.check_escaped("fair suffix")
         hs = [n.cm.coinstate.head().height for n in self.nodes]
